@@ -224,6 +224,48 @@ def build(kind, fname, extra, rg, probe, vals=None):
             return logp_core(x, a2, bb)
         rep.fcn, rep.params = fn, (asq, b, p) + s_tuple
         rep.logp, rep.pparams = logp, (asq, b)
+    elif base in ("pure_dep", "pure_depref"):
+        # dependent parameters: the tensor supplied as second parameter is b + 0.3 a, a function of the tensor
+        # supplied as first parameter (pure_dep); pure_depref is the same mathematical function of independent
+        # leaves (the dependency is evaluated inside the function) and serves as its reference
+        inside = base == "pure_depref"
+
+        def fn(*args):
+            probe.tick()
+            xs, aa, bb, pp = args[:nx], args[nx], args[nx + 1], args[nx + 2]
+            s = args[nx + 3] if extra else 1.0
+            return core(*xs, aa * aa, (bb + 0.3 * aa) if inside else bb, pp, s)
+
+        def logp(x, aa, bb):
+            probe.tick()
+            return logp_core(x, aa * aa, (bb + 0.3 * aa) if inside else bb)
+        bsup = b if inside else b + 0.3 * a
+        rep.fcn, rep.params = fn, (a, bsup, p) + s_tuple
+        rep.logp, rep.pparams = logp, (a, bsup)
+    elif base == "em_dep":
+        class EMDep(EditableModule):
+            def __init__(self):
+                self.a = a
+                self.bd = b + 0.3 * a    # a held tensor that is a function of another held tensor
+
+            def fn(self, *args):
+                probe.tick()
+                xs, pp, s = split(args)
+                return core(*xs, self.a * self.a, self.bd, pp, s)
+
+            def logp(self, x):
+                probe.tick()
+                return logp_core(x, self.a * self.a, self.bd)
+
+            def getparamnames(self, methodname, prefix=""):
+                if methodname in ("fn", "logp"):
+                    return [prefix + "a", prefix + "bd"]
+                raise KeyError(methodname)
+        m = EMDep()
+        rep.fcn, rep.params, rep.logp = m.fn, (p,) + s_tuple, m.logp
+        rep.holders = [m]
+        rep.slots = [(m, "a", 0), (m, "bd", 1)]
+        rep.nobj = 2
     elif base == "script":
         sf, sl = _script_fns(fname, extra)
         rep.fcn, rep.params = sf, (a, b, p) + s_tuple
